@@ -1,7 +1,7 @@
 (* C18 - Frozen (imported) values behave like ordinary values.
    This file holds only the statement, the property theorems and their non-vacuity examples. *)
 From PlzV Require Import Base.Harness Model.C16_Syntax Model.C16_Ops Model.C16_Prim Model.C16_Eval Model.C16 Model.C18.
-From PlzV Require Import Gen.C18Pins Model.C18_Config Proof.C18 Proof.C18_Sum Proof.C18_Config.
+From PlzV Require Import Gen.C18Pins Model.C18_Config Model.C18_Attr Proof.C18 Proof.C18_Sum Proof.C18_Config Proof.C18_Attr.
 
 (* For every listed builtin and operator (sorted reversed enumerate any all zip min max map filter reduce len in + ==),
    every heap, every frozen list - and, for len / in / ==, every frozen dict - applying it to the frozen value has the
@@ -66,14 +66,31 @@ Definition C18_partial_statement : Prop :=
                end)
   (* isinstance (as the source now reads - gotrans): the same answer for a frozen value as for the ordinary one *)
   /\ (forall v tys single,
-        isinstance_model isinstance_unwraps v tys single = isinstance_model isinstance_unwraps (unfreeze v) tys single).
+        isinstance_model isinstance_unwraps v tys single = isinstance_model isinstance_unwraps (unfreeze v) tys single)
+  (* ATTRIBUTE ACCESS D.name (pyDict.Property / pyFrozenDict.Property and the dictMethods table as translated by gotrans):
+     on every heap, for every dict and every name but setdefault, the wrapper of an imported dict answers exactly as
+     the ordinary dict does - a KEY named like a method (keys, values, items, get, copy) shadows the method in both ... *)
+  /\ (forall st i name, name <> s "setdefault" -> dict_property st (VFrozenDict i) name = dict_property st (VDict i) name)
+  /\ (forall st i name v, env_get name (dict_of st i) = Some v ->
+        dict_property st (VDict i) name = PVal v /\ (name <> s "setdefault" -> dict_property st (VFrozenDict i) name = PVal v))
+  (* ... and for access paths of ANY length (D.a["b"].c ...): read from the imported twin of a value (lists wrapped, dicts
+     wrapped with every value replaced by its twin) the path yields the twin of what it yields on the original, or the same error *)
+  /\ (forall path st v fv, no_setdefault path -> twin st v fv -> same_read st (resolve st v path) (resolve st fv path))
+  (* PLUGIN CONFIGURATION (loadPluginConfig with the store as translated by gotrans; pluginConfig): for every plugin
+     name, every list of [PluginConfig] definitions, every scope config and heap, CONFIG.<PLUGIN> after the load is an
+     ORDINARY dict all of whose entries are ordinary values (str / None / an ordinary list for a repeatable field) *)
+  /\ (forall name fs c st c' st',
+        env_get (str_upper name) (match c_overlay c with Some o => o | None => [] end) = None ->
+        load_plugin_config plugin_store name fs c st = Ok (c', st') ->
+        exists i, cfg_get (str_upper name) c' = Some (VDict i) /\ all_plain (dict_of st' i)).
 
 Theorem C18_partial : C18_partial_statement.
 Proof.
   exact (conj accepting_indifferent_list (conj accepting_indifferent_dict (conj natives_reject_frozen
         (conj zip_rejects_frozen (conj eq_never_equal (conj int_times_frozen_rejected
         (conj add_agrees_with_source (conj sum_is_fresh_plain_list (conj sum_consumers_indifferent
-        (conj union_erases_freeze_left (conj union_refuses_frozen_right (conj config_consumers_indifferent isinstance_indifferent)))))))))))).
+        (conj union_erases_freeze_left (conj union_refuses_frozen_right (conj config_consumers_indifferent (conj isinstance_indifferent
+        (conj frozen_dict_property_transparent (conj key_shadows_method (conj attr_path_twin plugin_config_is_ordinary)))))))))))))))).
 Qed.
 Print Assumptions C18_partial.
 
@@ -112,3 +129,21 @@ Proof. vm_compute. repeat split. Qed.
 Example C18_config_nonvacuous :
   demo_read config_freeze_steps = Ok (VList (Slice 0 0 2 2)) /\ demo_read deep_steps = Ok (VFrozenList (Slice 0 0 2 2)).
 Proof. exact deep_freeze_would_wrap. Qed.
+
+(* Non-vacuity of the follow-up-2 conjuncts: TOOLS = {"keys": [3, 1], "go": 1} and its imported copy on one heap are twins;
+   TOOLS.keys is the member in both (the list, wrapped in the copy) - and would be the bound method in the copy if the
+   wrapper consulted the method table first; a key named setdefault IS treated differently (the code as it is).
+   A plugin foo with a repeatable field flags = ["-b", "-a"] and a plain field tool: CONFIG.FOO.FLAGS is the ordinary
+   list - and would come back wrapped if loadPluginConfig stored the dict frozen. *)
+Example C18_attr_nonvacuous :
+  twin (fst attr_demo) (VDict 0) (snd attr_demo)
+  /\ resolve (fst attr_demo) (VDict 0) [AProp (s "keys")] = Ok (VList (Slice 0 0 2 2))
+  /\ resolve (fst attr_demo) (snd attr_demo) [AProp (s "keys")] = Ok (VFrozenList (Slice 0 0 2 2))
+  /\ prop_eval method_first_prog method_table (PVal (VInt 0)) [(s "keys", VInt 0)] (s "keys") = PMethodOf (s "keys")
+  /\ dict_property (fst attr_demo) (VFrozenDict 2) (s "setdefault") = PPanicked
+  /\ dict_property (fst attr_demo) (VDict 2) (s "setdefault") = PVal (VInt 5).
+Proof. exact attr_demo_ok. Qed.
+
+Example C18_plugin_nonvacuous :
+  plugin_demo plugin_store = Ok (VList (Slice 0 0 2 2)) /\ plugin_demo PStoreFrozen = Ok (VFrozenList (Slice 0 0 2 2)).
+Proof. exact plugin_demo_ok. Qed.
